@@ -35,8 +35,9 @@ func main() {
 		shard := fl.Int("shard", 0, "")
 		of := fl.Int("of", 1, "")
 		out := fl.String("out", "", "")
+		mode := fl.String("mode", "all", "")
 		fl.Parse(os.Args[3:])
-		os.Exit(core.ChildMain(os.Args[2], *tier, *seed, *shard, *of, *out))
+		os.Exit(core.ChildMain(os.Args[2], *tier, *seed, *shard, *of, *out, *mode))
 	case "replay":
 		os.Exit(core.ReplayMain(os.Args[2], os.Args[3]))
 	case "gengolden":
